@@ -3,10 +3,13 @@
 package actor
 
 import (
+	"bufio"
+	"bytes"
 	"context"
 	"encoding/json"
 	"fmt"
 	"os"
+	"path/filepath"
 	"sort"
 	"strings"
 	"testing"
@@ -59,26 +62,6 @@ type c42Params struct {
 	faults   int  // fault budget
 	ticks    int  // tick budget during exploration
 	onlyDrop bool // fault alphabet restricted to message loss
-	// sharding: the class of the FIRST fault of a history decides which shard explores it
-	shard, nshards int
-}
-
-// c42OwnsFirstFault partitions the faulty histories over the shards by the class of their first
-// fault: (position of the fault in the history, fault kind, message type), dealt round robin.
-// Every shard explores the fault-free part; every history with a fault belongs to exactly one shard.
-func c42OwnsFirstFault(kind, msgKind string, pos, shard, nshards int) bool {
-	if nshards <= 1 {
-		return true
-	}
-	ki := map[string]int{"drop": 0, "dup": 1, "delay": 2}[kind]
-	mi := 0
-	for i, k := range c42Kinds {
-		if k == msgKind {
-			mi = i
-		}
-	}
-	class := pos*(2*len(c42Kinds)+1) + ki*len(c42Kinds) + mi
-	return class%nshards == shard
 }
 
 type c42Op struct {
@@ -219,16 +202,13 @@ func (w *c42World) ops(explore bool) []c42Op {
 		m := e.m
 		out = append(out, c42Op{label: "deliver " + e.s, run: func() { w.deliver(m) }})
 	}
-	owns := func(kind, msgKind string) bool {
-		return w.faults > 0 || c42OwnsFirstFault(kind, msgKind, len(w.events), w.p.shard, w.p.nshards)
-	}
 	if explore && w.faults < w.p.faults {
 		for _, e := range ents {
 			m := e.m
-			if owns("drop", c42Kind(m.msg)) {
+			{
 				out = append(out, c42Op{label: "drop " + e.s, cost: 1, run: func() { w.faults++; w.net.c42Remove(m) }})
 			}
-			if !w.p.onlyDrop && owns("dup", c42Kind(m.msg)) {
+			if !w.p.onlyDrop {
 				out = append(out, c42Op{label: "dup " + e.s, cost: 1, run: func() {
 					w.faults++
 					w.net.c42Add(&c42Msg{from: m.from, to: m.to, msg: m.msg})
@@ -242,7 +222,7 @@ func (w *c42World) ops(explore bool) []c42Op {
 		// after the receiver's timeout fired.
 		if len(pool) == 0 {
 			out = append(out, c42Op{label: "tick", run: func() { w.ticks++; time.Sleep(c42Interval) }})
-		} else if w.faults < w.p.faults && !w.p.onlyDrop && owns("delay", "") {
+		} else if w.faults < w.p.faults && !w.p.onlyDrop {
 			out = append(out, c42Op{label: "tick(delaying the pool)", cost: 1, run: func() { w.ticks++; w.faults++; time.Sleep(c42Interval) }})
 		}
 	}
@@ -398,7 +378,11 @@ func (w *c42World) obs() string {
 }
 
 func (w *c42World) done() bool {
-	if len(w.cons.confirmed) != w.p.n || w.pc.confirmedSeq != int64(w.p.n) || len(w.pc.unconfirmed) != 0 {
+	distinct := map[string]bool{}
+	for _, id := range w.cons.confirmed {
+		distinct[id] = true
+	}
+	if len(distinct) != w.p.n || w.pc.confirmedSeq != int64(w.p.n) || len(w.pc.unconfirmed) != 0 {
 		return false
 	}
 	for k := 1; k <= w.p.n; k++ {
@@ -501,9 +485,14 @@ type c42Node struct {
 	ops  []string
 }
 
-// c42Search is the breadth-first search. Sharding is done by the worlds (c42OwnsFirstFault): every
-// shard explores the fault-free part and the faulty histories whose first fault belongs to it; the
-// fault-free part is counted by shard 0 only.
+// c42Search is the breadth-first search, level synchronous and cooperative over the shard processes:
+// every shard holds the same frontier (same order) and the same set of visited states; of level L it
+// executes the successors of the frontier nodes i with i mod S == shard, writes the states it found
+// that are new to it (canonical hash, parent index, event, enabled events) to a file in the run
+// directory, waits until the files of all shards for that level are there, and merges them in shard
+// order into the next frontier. Every transition is thus executed by exactly one shard and every
+// state is expanded once. A shard that runs out of budget says so in its file and all shards stop
+// (exhaustive:false). With a single shard no files are used.
 func c42Search(t *testing.T, p c42Params, params map[string]any, maxDepth int, deadline time.Time, exec func(hist []string, cont bool) c42Result, filter func(v vsched.Violation) bool) {
 	r := vsched.Rep()
 	st := r.NewScenario(p.name, "states")
@@ -521,20 +510,26 @@ func c42Search(t *testing.T, p c42Params, params map[string]any, maxDepth int, d
 		}
 		return
 	}
-	seen := map[uint64]struct{}{}
-	faulty := func(h []string) bool {
-		for _, e := range h {
-			if strings.HasPrefix(e, "drop ") || strings.HasPrefix(e, "dup ") || strings.HasPrefix(e, "tick(") {
-				return true
-			}
+	nsh, me := r.NShards, r.Shard
+	dir := ""
+	if nsh > 1 {
+		out := os.Getenv("VERIF_OUT")
+		if out == "" {
+			nsh, me = 1, 0 // no place to cooperate in: explore everything alone
+		} else {
+			dir = filepath.Join(filepath.Dir(out), "coop")
+			_ = os.MkdirAll(dir, 0o755)
 		}
-		return false
 	}
-	counted := func(h []string) bool { return r.Shard == 0 || faulty(h) }
+	scen := strings.NewReplacer("/", "_", " ", "_").Replace(p.name)
+	levelFile := func(level, shard int) string {
+		return filepath.Join(dir, fmt.Sprintf("%s.L%d.S%d.jsonl", scen, level, shard))
+	}
+	expired := func() bool {
+		return !r.TimeLeft() || (!deadline.IsZero() && time.Now().After(deadline))
+	}
+	seen := map[uint64]struct{}{}
 	record := func(h []string, res c42Result) {
-		if !counted(h) {
-			return
-		}
 		st.Executions++
 		st.Transitions++
 		st.Decisions += int64(len(h))
@@ -579,18 +574,33 @@ func c42Search(t *testing.T, p c42Params, params map[string]any, maxDepth int, d
 		return
 	}
 	seen[vsched.Hash64(root.canon)] = struct{}{}
-	if r.Shard == 0 {
+	if me == 0 {
 		st.States = 1
+		report(nil, root)
 	}
-	report(nil, root)
+	type found struct {
+		P   int      `json:"p"`             // index of the parent in the frontier
+		O   string   `json:"o"`             // the event
+		H   uint64   `json:"h"`             // hash of the canonical state
+		Ops []string `json:"ops,omitempty"` // events enabled there
+		End bool     `json:"end,omitempty"` // last line of the file
+		Cap string   `json:"cap,omitempty"` // the writer ran out of budget
+	}
 	frontier := []c42Node{{nil, root.ops}}
 	for depth := 1; depth <= maxDepth && len(frontier) > 0; depth++ {
-		var next []c42Node
-		for _, n := range frontier {
+		// ---- my share of this level
+		var mine []found
+		capped := ""
+		local := map[uint64]struct{}{}
+	level:
+		for i, n := range frontier {
+			if i%nsh != me {
+				continue
+			}
 			for _, op := range n.ops {
-				if !r.TimeLeft() || (!deadline.IsZero() && time.Now().After(deadline)) {
-					st.Capped = fmt.Sprintf("wall budget reached at depth %d", depth)
-					return
+				if expired() {
+					capped = fmt.Sprintf("wall budget reached at depth %d", depth)
+					break level
 				}
 				h := make([]string, len(n.hist)+1)
 				copy(h, n.hist)
@@ -605,18 +615,93 @@ func c42Search(t *testing.T, p c42Params, params map[string]any, maxDepth int, d
 				if _, ok := seen[k]; ok {
 					continue
 				}
-				seen[k] = struct{}{}
-				if counted(h) {
+				if _, ok := local[k]; ok {
+					continue
+				}
+				local[k] = struct{}{}
+				mine = append(mine, found{P: i, O: op, H: k, Ops: res.ops})
+			}
+		}
+		// ---- exchange
+		all := [][]found{mine}
+		if nsh > 1 {
+			tmp := levelFile(depth, me) + ".tmp"
+			f, err := os.Create(tmp)
+			if err != nil {
+				panic(err)
+			}
+			w := bufio.NewWriter(f)
+			enc := json.NewEncoder(w)
+			for _, x := range mine {
+				_ = enc.Encode(x)
+			}
+			_ = enc.Encode(found{End: true, Cap: capped})
+			_ = w.Flush()
+			_ = f.Close()
+			if err := os.Rename(tmp, levelFile(depth, me)); err != nil {
+				panic(err)
+			}
+			all = make([][]found, nsh)
+			for j := 0; j < nsh; j++ {
+				if j == me {
+					all[j] = mine
+					continue
+				}
+				var b []byte
+				for {
+					var err error
+					if b, err = os.ReadFile(levelFile(depth, j)); err == nil {
+						break
+					}
+					if expired() {
+						st.Capped = fmt.Sprintf("wall budget reached at depth %d while waiting for shard %d", depth, j)
+						return
+					}
+					time.Sleep(5 * time.Millisecond)
+				}
+				dec := json.NewDecoder(bytes.NewReader(b))
+				for dec.More() {
+					var x found
+					if err := dec.Decode(&x); err != nil {
+						panic(fmt.Sprintf("coop file %s: %v", levelFile(depth, j), err))
+					}
+					if x.End {
+						if x.Cap != "" && capped == "" {
+							capped = fmt.Sprintf("shard %d: %s", j, x.Cap)
+						}
+						break
+					}
+					all[j] = append(all[j], x)
+				}
+			}
+		}
+		if capped != "" {
+			st.Capped = capped
+			return
+		}
+		// ---- merge (identical in every shard)
+		var next []c42Node
+		for j, list := range all {
+			for _, x := range list {
+				if _, ok := seen[x.H]; ok {
+					continue
+				}
+				seen[x.H] = struct{}{}
+				if j == me || nsh == 1 {
 					st.States++
 				}
-				if len(res.ops) > 0 {
-					next = append(next, c42Node{h, res.ops})
+				if len(x.Ops) > 0 {
+					par := frontier[x.P]
+					h := make([]string, len(par.hist)+1)
+					copy(h, par.hist)
+					h[len(par.hist)] = x.O
+					next = append(next, c42Node{h, x.Ops})
 				}
 			}
 		}
 		frontier = next
 		if os.Getenv("VERIF_C42_TRACE") != "" {
-			fmt.Printf("TRACE %s depth=%d frontier=%d states=%d transitions=%d\n", p.name, depth, len(frontier), st.States, st.Transitions)
+			fmt.Printf("TRACE %s depth=%d frontier=%d states(mine)=%d transitions(mine)=%d seen=%d\n", p.name, depth, len(frontier), st.States, st.Transitions, len(seen))
 		}
 		if len(frontier) > 0 && depth == maxDepth {
 			st.Capped = fmt.Sprintf("depth horizon %d reached with %d open states (their continuation was checked)", maxDepth, len(frontier))
@@ -660,16 +745,12 @@ func c42Replay(p c42Params, exec func(hist []string, cont bool) c42Result, filte
 
 func c42Scenarios() []c42Params {
 	r := vsched.Rep()
-	sh, nsh := r.Shard, r.NShards
-	if r.ReplayScenario() != "" {
-		sh, nsh = 0, 1
-	}
 	mk := func(n, w, f, tk int, onlyDrop bool) c42Params {
 		name := fmt.Sprintf("p2p/N%d/W%d/F%d/T%d", n, w, f, tk)
 		if onlyDrop {
 			name += "/drops-only"
 		}
-		return c42Params{name: name, n: n, w: w, faults: f, ticks: tk, onlyDrop: onlyDrop, shard: sh, nshards: nsh}
+		return c42Params{name: name, n: n, w: w, faults: f, ticks: tk, onlyDrop: onlyDrop}
 	}
 	if s := os.Getenv("VERIF_C42_CFG"); s != "" { // development aid
 		var n, w, f, tk int
